@@ -224,6 +224,9 @@ func openRoot(b *builtLayer, store string, opaque int, base uint32, bsize, fetch
 		vr.Close()
 		return nil, err
 	}
+	// the db store answers GetAttr(root) without waiting for its asynchronous initialisation (link count of the root may
+	// still be partial: DESIGN F13, a C05 matter); wait for it so that the root attributes newNode captures are final
+	_ = mr.ForeachChild(mr.RootID(), func(string, uint32, os.FileMode) bool { return false })
 	root, err := layer.VerifNewRootNodeC07(b.dg, rr, &fakeBlob{bsize, fetched}, base, layer.OverlayOpaqueType(opaque))
 	if err != nil {
 		rr.Close()
@@ -1329,7 +1332,7 @@ func genEntry(r *hx.Rng, p string, kind string) TarEnt {
 	}
 	if r.Chance(1, 6) {
 		e.X = map[string]string{"user.k" + fmt.Sprint(r.Intn(2)): "v" + fmt.Sprint(r.Intn(3))}
-		if r.Chance(1, 10) {
+		if r.Chance(1, 40) {
 			e.X["trusted.overlay.opaque"] = "y"
 		}
 	}
@@ -1378,15 +1381,24 @@ func genLayer(r *hx.Rng, li int) []TarEnt {
 				if _, isDir := present[join(d, nm)]; isDir {
 					continue
 				}
+				if _, wh := have[join(d, whPrefix+nm)]; wh && k == "d" && !r.Chance(1, 6) {
+					k = "f"
+				}
 				add(genEntry(r, join(d, nm), k))
 			case 1: // whiteout of something that may exist below / beside
 				nm := []string{"f", "g", "h", "a", "b", "c", "e", "zz"}[r.Intn(8)]
+				if (have[join(d, nm)] == "d" || present[join(d, nm)]) && !r.Chance(1, 6) {
+					continue // whiteout + directory of the same name: the class the stack clause excludes; keep it rare
+				}
 				e := TarEnt{P: join(d, whPrefix+nm), K: "f", M: 0o644}
 				if r.Chance(1, 8) {
 					e = genEntry(r, e.P, []string{"f", "c", "l"}[r.Intn(3)]) // a marker that is not a plain empty file
 				}
 				add(e)
 			case 2:
+				if d == "" && !r.Chance(1, 6) {
+					continue // an opaque marker in the layer root cannot be expressed by an overlayfs lower directory
+				}
 				add(TarEnt{P: join(d, opqMarker), K: "f", M: 0o644})
 			case 3: // landmarks, at the root and below
 				add(TarEnt{P: join(d, []string{estargz.PrefetchLandmark, estargz.NoPrefetchLandmark}[r.Intn(2)]), K: "f", M: 0o644, Size: 1})
@@ -1395,7 +1407,7 @@ func genLayer(r *hx.Rng, li int) []TarEnt {
 				add(TarEnt{P: join(d, nm), K: "f", M: 0o644})
 			case 5: // reserved names as real entries
 				nm := []string{stateDir, estargz.TOCTarName, "trusted.overlay.opaque"}[r.Intn(3)]
-				if d == "" && nm == estargz.TOCTarName {
+				if d == "" && (nm == estargz.TOCTarName || (nm == stateDir && !r.Chance(1, 4))) {
 					continue
 				}
 				add(genEntry(r, join(d, nm), "f"))
@@ -1431,6 +1443,8 @@ func genOps(r *hx.Rng, c Case, isDir bool) []Op {
 			}
 		}
 	}
+	nreal := len(names)
+	var looked []string
 	names = append(names, "zz", "f", ".", "..", stateDir, estargz.PrefetchLandmark, estargz.NoPrefetchLandmark, whPrefix + "f", "")
 	xnames := []string{"trusted.overlay.opaque", "user.overlay.opaque", "user.k0", "user.k1", "security.none"}
 	n := r.Range(3, 14)
@@ -1451,9 +1465,21 @@ func genOps(r *hx.Rng, c Case, isDir bool) []Op {
 		case 0:
 			ops = append(ops, Op{Op: "readdir"})
 		case 1:
-			ops = append(ops, Op{Op: "lookup", Name: names[r.Intn(len(names))], Reg: r.Chance(1, 2)})
+			nm := names[r.Intn(len(names))]
+			if nreal > 0 && r.Chance(3, 5) {
+				nm = names[r.Intn(nreal)]
+			}
+			if len(looked) > 0 && r.Chance(1, 4) {
+				nm = looked[r.Intn(len(looked))]
+			}
+			looked = append(looked, nm)
+			ops = append(ops, Op{Op: "lookup", Name: nm, Reg: r.Chance(3, 5)})
 		case 2:
-			ops = append(ops, Op{Op: "forget", Name: names[r.Intn(len(names))]})
+			nm := names[r.Intn(len(names))]
+			if len(looked) > 0 && r.Chance(3, 4) {
+				nm = looked[r.Intn(len(looked))]
+			}
+			ops = append(ops, Op{Op: "forget", Name: nm})
 		case 3:
 			ops = append(ops, Op{Op: "getattr"})
 		case 4:
@@ -1489,6 +1515,7 @@ func main() {
 		res := runNode(c)
 		if res.skipped != "" {
 			ctx.Count("skipped." + strings.SplitN(res.skipped, ":", 2)[0])
+			fmt.Fprintf(os.Stderr, "skipped node %q of layer %d (%s): %s\n", c.Path, c.LI, c.Store, res.skipped)
 			return
 		}
 		var sp []problem
